@@ -138,6 +138,10 @@ func (c *V2) Do(op Op) (out Outcome) {
 		return fin(err)
 	case OpGet:
 		in := &v2ddb.GetItemInput{TableName: aws.String(op.Table), Key: ItemToV2(op.Key), ProjectionExpression: strp(op.Proj), ExpressionAttributeNames: op.Names}
+		in.AttributesToGet = op.AttrsToGet
+		if op.Consistent {
+			in.ConsistentRead = aws.Bool(true)
+		}
 		res, err := c.C.GetItem(ctx, in)
 		o := fin(err)
 		if err == nil {
@@ -187,6 +191,11 @@ func (c *V2) Do(op Op) (out Outcome) {
 		if !op.NoKC {
 			in.KeyConditionExpression = aws.String(op.KeyCnd)
 		}
+		in.AttributesToGet = op.AttrsToGet
+		if op.Consistent {
+			in.ConsistentRead = aws.Bool(true)
+		}
+		in.Select = v2types.Select(op.Select)
 		if op.Limit > 0 {
 			in.Limit = aws.Int32(int32(op.Limit))
 		}
@@ -209,6 +218,11 @@ func (c *V2) Do(op Op) (out Outcome) {
 		in := &v2ddb.ScanInput{TableName: aws.String(op.Table), FilterExpression: strp(op.Filter), ProjectionExpression: strp(op.Proj),
 			ExpressionAttributeNames: op.Names, ExpressionAttributeValues: ItemToV2(op.Values), IndexName: strp(op.Index),
 			ExclusiveStartKey: ItemToV2(op.Start)}
+		in.AttributesToGet = op.AttrsToGet
+		if op.Consistent {
+			in.ConsistentRead = aws.Bool(true)
+		}
+		in.Select = v2types.Select(op.Select)
 		if op.Limit > 0 {
 			in.Limit = aws.Int32(int32(op.Limit))
 		}
@@ -260,6 +274,14 @@ func (c *V2) Do(op Op) (out Outcome) {
 		for _, e := range op.Gets {
 			ka := in.RequestItems[e.Table]
 			ka.Keys = append(ka.Keys, ItemToV2(e.Del))
+			ka.AttributesToGet = op.AttrsToGet
+			if op.Consistent {
+				ka.ConsistentRead = aws.Bool(true)
+			}
+			ka.ProjectionExpression = strp(op.Proj)
+			if op.Proj != "" {
+				ka.ExpressionAttributeNames = op.Names
+			}
 			in.RequestItems[e.Table] = ka
 		}
 		res, err := c.C.BatchGetItem(ctx, in)
